@@ -294,7 +294,8 @@ def dump_one(f: TextIO, data: IOData):
         x, y, z = data.atcoords[i] / angstrom
         occ = 1.00 if occupancies is None else occupancies[i]
         b = 0.00 if bfactors is None else bfactors[i]
-        attype = str(n + str(i + 1)) if attypes is None else attypes[i]
+        # The default atom name must fit in the four columns of the atom name.
+        attype = str(n + str(i + 1))[:4] if attypes is None else attypes[i]
         restype = "XXX" if restypes is None else restypes[i]
         chain = " " if chainids is None else chainids[i]
         out1 = f"{i+1:>5d} {attype:<4s} {restype:3s} {chain:1s}{resnum:>4d}    "
